@@ -119,7 +119,7 @@ claim('C19', 'effect-site gates (size cap on the fetched descriptor, per loop it
       'Static, all-paths: decides the structural clauses of the round-trip property — every content.FetchAll of the registry package is reachable only through a positive constant cap on the very descriptor it fetches; FetchSignatureBlob returns the fetch of the looked-up descriptor, '
       'the lookup admits only the two manifest media types, decodes into the manifest type of that media type and requires exactly one layer/blob, returning element 0 of the decoded list; the listing appends an element only, per iteration and per branch, through cap, fetch, decode into a per-iteration '
       'fresh target, non-nil subject content.Equal to the requested descriptor, and the notation artifact type read from the manifest decoded in that iteration, returning nothing on failure; PushSignature pushes the caller\'s media type and bytes and packs subject, annotations, the pushed blob as the single layer '
-      'and the immutable notation config whose media type is the type the listing filters on, the config helper succeeding only if the config blob is known to be in the store (Exists true, Push nil or already-exists); the two size caps are followed through a fetch helper's limit parameter to the constant at each call site and pinned by class (bytes decoded as a manifest: at most 4 MiB, the envelope blob: at most 32 MiB). NOT decided: byte equality itself (content addressing of oras-go is trusted) and histories in a real layout.', 'DESIGN.md 2/C19')
+      'and the immutable notation config whose media type is the type the listing filters on, the config helper succeeding only if the config blob is known to be in the store (Exists true, Push nil or already-exists); the two size caps are followed through the limit parameter of a fetch helper to the constant at each call site and pinned by class (bytes decoded as a manifest: at most 4 MiB, the envelope blob: at most 32 MiB). NOT decided: byte equality itself (content addressing of oras-go is trusted) and histories in a real layout.', 'DESIGN.md 2/C19')
 
 claim('C20', 'effect inventory + effect-site gates + finite decision table by abstract interpretation of Install (216 scenarios) + ordering (dominance and cut sets) + constant-pattern classification + closure analysis of the WalkDir callbacks + sibling agreement (binName / parsePluginName)',
       'Static, all-paths: every call of CLIManager.Install that can modify the plugin directory is reachable only after non-empty source, certified name validation, NewCLIPlugin and GetMetadata success of the new plugin, on that one name; the decision table over '
